@@ -198,6 +198,43 @@ fn run_with<'c, C: CellType, X: Executor<'c, C>>(
     first
 }
 
+fn repeated_with<'c, C: CellType, X: Executor<'c, C>>(
+    code: &'c str,
+    cfg: &RunCfg,
+    input: &[u8],
+    n: usize,
+) -> Vec<(Vec<Ev>, String)> {
+    match catch_unwind(AssertUnwindSafe(|| X::create(code, cfg.level))) {
+        Ok(Ok(exec)) => (0..n)
+            .map(|_| {
+                let r = exec_once::<C, X>(&exec, cfg, input, None);
+                (r.log, r.ret)
+            })
+            .collect(),
+        _ => vec![(vec![], "create-failed".to_string())],
+    }
+}
+
+/// Executes one executor `n` times on fresh contexts; returns every (log, result).
+pub fn run_repeated(code: &str, w: u32, cfg: &RunCfg, input: &[u8], n: usize) -> Vec<(Vec<Ev>, String)> {
+    macro_rules! go {
+        ($c:ty) => {
+            match cfg.backend.as_str() {
+                "inplace" => repeated_with::<$c, InplaceInterpreter<$c>>(code, cfg, input, n),
+                "irint" => repeated_with::<$c, IrInterpreter<$c>>(code, cfg, input, n),
+                "bcint" => repeated_with::<$c, BcInterpreter<$c>>(code, cfg, input, n),
+                _ => repeated_with::<$c, BaseJitCompiler<$c>>(code, cfg, input, n),
+            }
+        };
+    }
+    match w {
+        8 => go!(u8),
+        16 => go!(u16),
+        32 => go!(u32),
+        _ => go!(u64),
+    }
+}
+
 fn run_backend<C: CellType>(code: &str, cfg: &RunCfg, input: &[u8], stream: Option<(String, usize)>) -> RunResult {
     match cfg.backend.as_str() {
         "inplace" => run_with::<C, InplaceInterpreter<C>>(code, cfg, input, stream),
